@@ -136,3 +136,27 @@ Fixpoint run_trace (c : cfg) (consts : list (string * string)) (w : writer) (ops
   end.
 Definition trace_scenario (c : cfg) (consts : list (string * string)) (m : mesh) (ops : list op) : list Z :=
   match init m with Some w => run_trace c consts w ops | None => [(-1)%Z] end.
+
+(* ---- every table is terminated: in every block of every method, a table write (write_matrix_as_table puts no newline after
+   its last row) is IMMEDIATELY followed, in the same block, by a write of pure whitespace (the newline), so that the last number
+   of the table is never glued to what comes next -- in particular not to the next table of an enclosing loop *)
+Fixpoint terminated (fuel : nat) (l : list stmt) : bool :=
+  match fuel with
+  | O => false
+  | S f =>
+    match l with
+    | [] => true
+    | STable :: SWrite [] :: r => terminated f r
+    | STable :: _ => false
+    | SFor _ body :: r => terminated f body && terminated f r
+    | SIf _ a b :: r => terminated f a && terminated f b && terminated f r
+    | _ :: r => terminated f r
+    end
+  end.
+Definition tables_terminated (c : cfg) : bool := forallb (fun m => terminated 100 (snd m)) c.
+Fixpoint count_tables (fuel : nat) (l : list stmt) : nat :=
+  match fuel with
+  | O => 0
+  | S f => list_sum (map (fun s => match s with STable => 1 | SFor _ b => count_tables f b
+                                               | SIf _ a b => count_tables f a + count_tables f b | _ => 0 end) l)
+  end.
